@@ -129,6 +129,8 @@ func c07File(kind string, n int, seed int64) []string {
 				}
 			}
 		}
+		// records whose last field ends in a blank or a TAB (part of the field)
+		lines = append(lines, "'trail1.example.com,ends with a blank ", "'trail2.example.com,ends with a tab\t", "+trail3.example.com,192.0.2.9,300,,x ")
 		// comments, blank and indented lines the parser must skip or trim
 		lines = append(lines, "# a comment", "", "   +indented.example.com,192.0.2.200,60", "#")
 	}
@@ -303,7 +305,7 @@ func cutsInsideRuns(ref harness.Dump, step int) int {
 	return n
 }
 
-var c07BadLines = []string{"Xbad.example.com,192.0.2.1", "+bad.example.com,192.0.2.1,300,,\\q", "%ab,300.1.2.3/8,Ma", "%\\q,10.0.0.0/8", "Bbad.example.com,.,300,,1,port=x"}
+var c07BadLines = []string{"\t+tab-indented.example.com,192.0.2.1", "Xbad.example.com,192.0.2.1", "+bad.example.com,192.0.2.1,300,,\\q", "%ab,300.1.2.3/8,Ma", "%\\q,10.0.0.0/8", "Bbad.example.com,.,300,,1,port=x"}
 
 // c07CheckFailing inserts a rejected line; every setting must fail.
 func c07CheckFailing(lines []string, bad string, pos int, s c07Setting) (msg string, inconclusive string) {
